@@ -336,8 +336,19 @@ func solveOne(o *Obligation, opts SolveOpts) {
 		o.Status = "failed"
 		return
 	}
-	if want == "unsat" && ans != "sat" && ans != "unsat" && caseSplit(o, opts, 2*opts.QuickT, 3) {
-		// decided early as a case analysis over the merge conditions
+	// in parallel with the race below: the case analysis over the merge conditions
+	var csDone chan *Obligation
+	if want == "unsat" && ans != "sat" && ans != "unsat" && !opts.AllThree {
+		csDone = make(chan *Obligation, 1)
+		oc := *o
+		go func() {
+			if caseSplit(&oc, opts, 2*opts.QuickT, 3) {
+				csDone <- &oc
+			} else {
+				csDone <- nil
+			}
+		}()
+	} else if want == "unsat" && ans != "sat" && ans != "unsat" && caseSplit(o, opts, 2*opts.QuickT, 3) {
 		return
 	}
 	// race the remaining solvers with the long timeout
@@ -363,8 +374,21 @@ func solveOne(o *Obligation, opts SolveOpts) {
 		// consulted for disagreement only
 		o.Status = "discharged"
 	}
-	for range list {
-		r := <-rc
+	for pending := len(list); pending > 0; {
+		var r res
+		select {
+		case r = <-rc:
+			pending--
+		case oc := <-csDone:
+			csDone = nil
+			if oc != nil {
+				// decided as a case analysis while the solvers were still racing
+				o.Status, o.Answer, o.Solver, o.CaseSplit = oc.Status, oc.Answer, oc.Solver, oc.CaseSplit
+				o.Time += oc.Time
+				return
+			}
+			continue
+		}
 		o.Time += r.secs
 		answers[r.name] = r.ans
 		if r.ans == want && o.Status != "discharged" {
